@@ -118,6 +118,10 @@ def gen_states(rng, lay, n, pointer_targets=None):
         for name, addrs in lay['cells'].items():
             for a in addrs:
                 cells[a] = b() if k > 0 else 0
+            if len(addrs) == 2 and k > 0 and rng.random() < 0.4:
+                # 16-bit boundaries: a carry / borrow between the bytes is one step away
+                v = rng.choice([0x0100, 0x00FF, 0x0101, 0xFF00, 0x0001, 0xFFFF, 0x0200, 0x01FF, 0x8000, 0x7FFF, 0x0000, 0x0201, 0xFF01, 0x8001, 0x80FF])
+                cells[addrs[0]], cells[addrs[1]] = v & 0xff, v >> 8
         if pointer_targets:
             for pname, targets in pointer_targets.items():
                 if pname in lay['cells'] and targets:
